@@ -314,12 +314,12 @@ Proof. reflexivity. Qed.
 (* ================= the host functions of the two sides on one string ================= *)
 (* the model's Host::parse_opaque + Display and the Standard's host parser + serializer agree on s:
    both fail, or both succeed with the same text; the text does not start with ':', and the model's
-   host is the empty domain exactly for the empty string (its text is then empty) *)
+   host is the empty domain exactly for the empty string, and its text is empty exactly then *)
 Definition host_agree (hpo : list N -> result host) (hd : host -> list N)
            (shp : bool -> list N -> option spec_host) (shs : spec_host -> list N) (s : list N) : Prop :=
   match hpo s, host_parsing shp true s with
   | Ok h, Some sh => hd h = shs sh /\ starts_with_cp 58 (hd h) = false
-                     /\ (h = HDomain [] <-> s = []) /\ (s = [] -> hd h = [])
+                     /\ (h = HDomain [] <-> s = []) /\ (hd h = [] <-> s = [])
   | Err _, None => True
   | _, _ => False
   end.
@@ -565,14 +565,15 @@ Theorem path_start_spec rem ser hh : usv_list rem -> starts_ae (ntnl rem) = true
     /\ forallb (fun c => negb ((c =? 63) || (c =? 35))) (flat_map (fun s => 47 :: s) segs) = true
     /\ forallb no_slash segs = true
     /\ (forall u, su_path u = SPList [] -> is_special u = false -> su_query u = None -> su_fragment u = None ->
-          sauth_tail u (ntnl rem) = set_fragment (set_query (set_path u (SPList segs)) (pqf_q STNotSpecial rest)) (pqf_f rest)).
+          sauth_tail u (ntnl rem) = set_fragment (set_query (set_path u (SPList segs)) (pqf_q STNotSpecial rest)) (pqf_f rest))
+    /\ match ntnl rest with [] => True | c :: _ => is_qh c = true end.
 Proof.
   intros Hu Hae Hok. unfold parse_path_start, inp_split_first. cbn [st_is_special].
   destruct (ntnl rem) as [|c t] eqn:Ent.
   - (* nothing left *)
     rewrite (inp_next_none rem Ent). unfold parse_path. rewrite (loop_all_tnl rem ser hh Ent).
     exists [], []. cbn [flat_map]. rewrite app_nil_r. split; [reflexivity|]. split; [constructor|].
-    split; [reflexivity|]. split; [reflexivity|].
+    split; [reflexivity|]. split; [reflexivity|]. split; [|exact I].
     intros u HP Hns Hq Hf. cbn [sauth_tail]. rewrite (set_path_same u [] HP).
     destruct u as [x1 x2 x3 x4 x5 x6 x7 x8]. cbn in *. subst. reflexivity.
   - destruct (inp_next_some rem c t Ent) as (r' & En & Hr' & Et). rewrite En.
@@ -629,6 +630,9 @@ Proof.
       split; [apply usv_cbb_rest; exact Hur2|].
       split; [rewrite path_text_flat; apply path_text_no_qh; assumption|].
       split; [rewrite <- Hfst; apply spath_no_slash; reflexivity|].
+      split.
+      2:{ pose proof (cbb_rest_head r2) as Hh. destruct (cbb_rest r2) as [|d dr]; [exact I|]. destruct Hh as [Hh1 Hh2].
+          rewrite ntnl_cons by exact Hh2. exact Hh1. }
       intros u HP Hnsu Hq Hf. cbn [sauth_tail]. replace (47 =? 47) with true by reflexivity.
       rewrite <- Hr2. rewrite Hfst, Hsnd.
       apply tail_url_ns; [exact Hnsu | exact Hq | exact Hf | apply cbb_rest_head].
@@ -636,7 +640,7 @@ Proof.
       assert ((c =? 63) || (c =? 35) = true) as Eqh by (unfold is_ae in Hae; rewrite E47 in Hae; exact Hae).
       rewrite Eqh. exists [], rem. cbn [flat_map]. rewrite app_nil_r.
       split; [reflexivity|].
-      split; [exact Hu|]. split; [reflexivity|]. split; [reflexivity|].
+      split; [exact Hu|]. split; [reflexivity|]. split; [reflexivity|]. split; [|rewrite Ent; exact Eqh].
       intros u HP Hnsu Hq Hf. cbn [sauth_tail]. rewrite E47. rewrite (set_path_same u [] HP).
       rewrite <- (pqf_q_drop STNotSpecial rem), <- (pqf_f_drop rem).
       rewrite <- Ent, <- (ntnl_drop rem).
